@@ -6,8 +6,10 @@ import time
 import traceback
 
 ROOT = os.path.dirname(os.path.dirname(os.path.abspath(__file__)))
-EVID = os.path.join(ROOT, "evidence")
-REPLAY = os.path.join(ROOT, "replays")
+# A seeded-change trial (CUBED_REPO=<scratch worktree>) must never overwrite the evidence of the real tree.
+_SCRATCH = os.environ.get("CUBED_REPO") and os.path.join(os.environ.get("TMPDIR", "/tmp"), "verif-seedrun")
+EVID = os.path.join(_SCRATCH or ROOT, "evidence")
+REPLAY = os.path.join(_SCRATCH or ROOT, "replays")
 FINDINGS_FILE = os.path.join(ROOT, "known_findings.json")
 
 
